@@ -169,7 +169,7 @@ def rule_insert_remove(ctx, prog, eff):
                 detail = f"Ok value `{tstr(t)}` is not (Self {{ v }}, v.remove(i)) over one vector"
     ctx.ob("R10.3.remove", b.key, okr, b.where(), detail)
     errs = [unref(deep_strip(t)[3][0])[2] for _p, t in b.return_terms() if deep_strip(t)[0] == 'agg' and deep_strip(t)[2] == 'Err']
-    ctx.ob("R10.3.remove_error", b.key, errs == ["InvalidGuestRegion"], b.where(), f"failure variants: {errs}")
+    ctx.ob("R10.3.remove_error", b.key, bool(errs) and set(errs) == {"InvalidGuestRegion"}, b.where(), f"failure variants: {errs} (every failing path reports InvalidGuestRegion)")
     sig = b.j.get("sig", "")
     ctx.ob("R10.4.receiver", b.key, re.search(r"fn\(&('\w+ )?mmap::GuestMemoryMmap", sig) is not None, b.where(), f"receiver must be &self")
 
@@ -268,8 +268,10 @@ def rule_region_new(ctx, prog, eff):
                     chk = e["g"] == f.get("guest_base") and e["m"] == f.get("mapping")
             if r[0] == 'discr' and r[2] == 1:
                 e = {}
-                if match(C("num::checked_add", F(V("g"), "0"), C("MmapRegion::size", V("m"))), r[1], e):
-                    chk = e["g"] == f.get("guest_base") and e["m"] == f.get("mapping")
+                if match(ALT(C("num::checked_add", F(V("g"), "0"), C("MmapRegion::size", V("m"))),
+                             C("num::checked_add", C("Address::raw_value", V("g")), C("MmapRegion::size", V("m"))),
+                             C("Address::checked_add", V("g"), C("MmapRegion::size", V("m")))), r[1], e):
+                    chk = chk or (e["g"] == f.get("guest_base") and e["m"] == f.get("mapping"))
         ok = root.self_adt == REG and root.name == "new" and chk
         ctx.ob("R10.5.region_overflow_check", b.key, ok, b.where(s["ln"]),
                f"GuestRegionMmap {{ mapping: {tstr(f.get('mapping'))}, guest_base: {tstr(f.get('guest_base'))} }} behind `guest_base.0.checked_add(mapping.size())` is Some of the same values: {chk}")
